@@ -762,8 +762,15 @@ impl Stream for TStream {
     type Item = u32;
     fn poll_next(self: Pin<&mut Self>, cx: &mut Context<'_>) -> Poll<Option<u32>> {
         let this = self.get_mut();
+        let mut wake_self = false;
+        let polled_after_end = this.w.with(|i| i.streams[this.s].end_returned);
+        if polled_after_end {
+            let (prop, obj) = this.w.with(|i| (if i.streams[this.s].is_pipe { "C12" } else { "C11" }, i.streams[this.s].pipe_obj));
+            this.w.fail(prop, "polled-after-end", obj, None, format!("input stream s{} was polled again after it had returned None: the pipe must stop once its stream has ended", this.s));
+        }
         let r = this.w.with(|i| {
             let always = this.w.case.cfg.stream_always_register;
+            let budget = this.w.case.cfg.stream_self_wakes;
             let st = &mut i.streams[this.s];
             if let Some(v) = st.items.pop_front() {
                 if always {
@@ -771,14 +778,29 @@ impl Stream for TStream {
                 }
                 Poll::Ready(Some(v))
             } else if st.closed {
+                st.end_returned = true;
                 Poll::Ready(None)
             } else {
                 st.waker = Some(cx.waker().clone());
                 st.polled_pending += 1;
+                if st.self_wakes < budget {
+                    // cooperative yield: "poll me again", said from inside the poll
+                    st.self_wakes += 1;
+                    st.waker = None;
+                    wake_self = true;
+                }
                 Poll::Pending
             }
         });
-        this.w.hist(|| format!("stream s{} poll_next -> {:?}", this.s, r));
+        this.w.hist(|| format!("stream s{} poll_next -> {:?}{}", this.s, r, if wake_self { " (wakes itself during the poll)" } else { "" }));
+        if wake_self {
+            this.w.with(|i| {
+                i.stats.stream_self_wakes += 1;
+                i.streams[this.s].in_self_wake = true;
+            });
+            cx.waker().wake_by_ref();
+            this.w.with(|i| i.streams[this.s].in_self_wake = false);
+        }
         r
     }
 }
@@ -1735,6 +1757,7 @@ fn root_main(w: Arc<World>) {
                     }
                 }
                 RootAct::OpenGate { g } => w.open_gate(*g as usize),
+                RootAct::Rewake { g } => w.rewake(*g as usize),
             }
         }
         if phase.capacity_probe {
